@@ -34,6 +34,15 @@ def usesPolicy : Bool := false
 /-- the session field handed to Store.GetMessages (the mailbox key) is only ever assigned `A[0]`, inside the handler that has the USER clause (once in that clause), where A is that handler's never-written argument-list parameter; A is result 1 of the command parser at the one call of the handler, and the parser returns the words after the first blank of the line (after at most trimming CR / LF) unchanged: strings.Split(line, " ")[1:], or strings.Cut(line, " ") followed by strings.Split(rest, " ") -/
 def userVerbatim : Bool := true
 
+/-- the ways a statement inside the deletion loop (the innermost for / range around the package's one Store.RemoveMessage call site, helpers followed upwards) can leave it other than by finishing the iteration: return / break / continue-outer / goto / panic; [] = none; none = the package does not have exactly one deletion loop -/
+def deleteLoopExits : Option (List String) := some []
+
+/-- one entry per variable or field outliving an iteration that the body of the deletion loop (or a helper between it and the RemoveMessage call) assigns; [] = no iteration leaves anything for a later one -/
+def deleteLoopCarried : Option (List String) := some []
+
+/-- for every executed path of the QUIT row of the handler whose QUIT touches the store: the Store methods called on that path joined by +, as a sorted set; ["RemoveMessage"] = every path of the row runs the deletion loop -/
+def quitRowStore : List String := ["RemoveMessage"]
+
 /-- what the accepting exit of the STLS clause does to the connection, in source order (see harness/cmd/extract/tls.go) -/
 def stlsSwitch : List String := ["wrap", "handshake", "conn", "reader", "state"]
 
